@@ -34,6 +34,10 @@ type pkg struct {
 
 var fset = token.NewFileSet()
 var onDemandDefs []string
+
+// picks (sites.go) order the parameters of a generated definition alphabetically, so that swapping operands in the
+// source does not change the definition's signature; the older deadline sites keep order of first use
+var sortSiteParams bool
 var onDemandDone = map[string]bool{}
 var imp types.Importer
 
@@ -162,9 +166,15 @@ func constLit(v constant.Value, tt ty, where string) string {
 	return fmt.Sprintf("(%s#%d)", bi.String(), tt.w)
 }
 
+var leanKeywords = map[string]bool{"end": true, "at": true, "from": true, "have": true, "show": true, "then": true, "else": true, "do": true, "in": true, "fun": true, "let": true, "match": true, "with": true, "open": true, "where": true, "by": true, "if": true, "for": true, "local": true, "prefix": true, "instance": true, "class": true, "structure": true, "def": true, "theorem": true, "example": true, "mutual": true, "namespace": true, "section": true, "variable": true, "universe": true, "import": true, "export": true, "private": true, "protected": true, "macro": true, "syntax": true, "notation": true, "infix": true, "deriving": true, "extends": true, "return": true, "unless": true, "try": true, "catch": true, "finally": true, "mut": true, "Type": true, "Prop": true, "Sort": true, "using": true, "calc": true, "suffices": true, "obtain": true, "abbrev": true, "inductive": true, "axiom": true, "opaque": true, "attribute": true, "set_option": true, "nomatch": true, "nofun": true, "forall": true, "exists": true}
+
 func sanitize(s string) string {
 	r := strings.NewReplacer(".", "_", "(", "", ")", "", "[", "_", "]", "", "*", "", " ", "")
-	return r.Replace(s)
+	s = r.Replace(s)
+	if leanKeywords[s] {
+		s += "_"
+	}
+	return s
 }
 
 func (t *tr) exprString(e ast.Expr) string {
@@ -240,6 +250,10 @@ func (t *tr) expr(e ast.Expr) (string, ty) {
 		return t.binary(x)
 	case *ast.CallExpr:
 		return t.call(x, tv)
+	case *ast.IndexExpr:
+		if t.siteMod {
+			return t.siteIndex(x)
+		}
 	}
 	fail("%s: unsupported expression %T (%s)", t.pos(e), e, t.exprString(e))
 	return "", ty{}
@@ -375,7 +389,20 @@ func (t *tr) call(x *ast.CallExpr, tv types.TypeAndValue) (string, ty) {
 		return convert(s, from, to), to
 	}
 	name := t.exprString(x.Fun)
+	// time.Duration constant .Nanoseconds(): the constant itself, as int64
+	if se, ok := x.Fun.(*ast.SelectorExpr); ok && se.Sel.Name == "Nanoseconds" && len(x.Args) == 0 {
+		if ctv, ok := t.p.info.Types[se.X]; ok && ctv.Value != nil {
+			return constLit(ctv.Value, ty{64, true}, t.pos(x)), ty{64, true}
+		}
+	}
 	switch name {
+	case "len":
+		if ln, ok := knownTables[t.exprString(x.Args[0])]; ok && len(x.Args) == 1 {
+			return "(OtterVerif.Bv.tblLen " + ln + ")", ty{64, true}
+		}
+		if t.siteMod && len(x.Args) == 1 {
+			return t.useFree("len_"+t.exprString(x.Args[0]), ty{64, true}), ty{64, true}
+		}
 	case "min", "max":
 		a, ta := t.expr(x.Args[0])
 		for _, arg := range x.Args[1:] {
@@ -770,6 +797,9 @@ func callSites(p *pkg, meths map[string]bool) []site {
 func transSite(p *pkg, leanName string, e ast.Expr, calls map[string]string, doc string) (string, []string) {
 	t := &tr{p: p, locals: map[string]bool{}, calls: calls, freeTy: map[string]ty{}, siteMod: true}
 	body, rt := t.expr(e)
+	if sortSiteParams {
+		sort.Strings(t.free)
+	}
 	var ps []string
 	for _, fv := range t.free {
 		ps = append(ps, fmt.Sprintf("(%s : %s)", fv, t.freeTy[fv].lean()))
@@ -1027,6 +1057,48 @@ func main() {
 	}
 	s += footer("Swar")
 	write(out, "Swar", s)
+
+	// ---- timer wheel: tables, time maps and every pure computation of findBucket / DeleteExpired / deleteExpiredFromBucket
+	ep := loadPkg("internal/expiration")
+	s = header("Wheel", "OtterVerif.Gen.Xmath")
+	wCalls := map[string]string{}
+	for k, v := range xmCalls {
+		wCalls[k] = v
+	}
+	for _, tb := range []string{"buckets", "spans", "shift"} {
+		s += globalTable(ep, tb, "OtterVerif.Gen.Wheel."+tb, wCalls) + "\n"
+	}
+	for _, fn := range []string{"wheelTime", "clockTime"} {
+		s += transFunc(ep, fn, fn, wCalls) + "\n"
+		wCalls[fn] = "OtterVerif.Gen.Wheel." + fn
+	}
+	s += transPicks(ep, []pick{
+		{"fb_due", "cond", "Variable.findBucket", "", 0, 3},
+		{"fb_clamped", "assign", "Variable.findBucket", "expiration", 0, 1},
+		{"fb_duration", "assign", "Variable.findBucket", "duration", 0, 1},
+		{"fb_length", "assign", "Variable.findBucket", "length", 0, 1},
+		{"fb_loop", "cond", "Variable.findBucket", "", 1, 3},
+		{"fb_fits", "cond", "Variable.findBucket", "", 2, 3},
+		{"fb_ticks", "assign", "Variable.findBucket", "ticks", 0, 1},
+		{"fb_index", "assign", "Variable.findBucket", "index", 0, 1},
+		{"add_arg", "callarg0", "Variable.Add", "v.findBucket", 0, 1},
+		{"de_currentTime", "assign", "Variable.DeleteExpired", "currentTime", 0, 1},
+		{"de_loop", "cond", "Variable.DeleteExpired", "", 0, 2},
+		{"de_previousTicks", "assign", "Variable.DeleteExpired", "previousTicks", 0, 1},
+		{"de_currentTicks", "assign", "Variable.DeleteExpired", "currentTicks", 0, 1},
+		{"de_delta", "assign", "Variable.DeleteExpired", "delta", 0, 1},
+		{"de_stop", "cond", "Variable.DeleteExpired", "", 1, 2},
+		{"db_mask", "assign", "Variable.deleteExpiredFromBucket", "mask", 0, 1},
+		{"db_steps", "assign", "Variable.deleteExpiredFromBucket", "steps", 0, 1},
+		{"db_start", "assign", "Variable.deleteExpiredFromBucket", "start", 0, 1},
+		{"db_end", "assign", "Variable.deleteExpiredFromBucket", "end", 0, 1},
+		{"db_loop", "cond", "Variable.deleteExpiredFromBucket", "", 0, 3},
+		{"db_slot", "index", "Variable.deleteExpiredFromBucket", "timerWheel", 0, 1},
+		{"db_expired", "cond", "Variable.deleteExpiredFromBucket", "", 2, 3},
+		{"db_reportedNow", "callarg1", "Variable.deleteExpiredFromBucket", "expireNode", 0, 1},
+	}, wCalls)
+	s += footer("Wheel")
+	write(out, "Wheel", s)
 
 	// ---- protocol skeletons
 	s = header("Skeleton")
